@@ -30,6 +30,7 @@ type FuncContract struct {
 	ModifiesSrc []string
 	LoopInvs    map[int][]Clause
 	AtCall      map[string][]Clause // assertions checked in the caller just before each call of the named callee
+	GhostSets   []GhostSet          // ghost assignments performed when the function returns
 	Stable      []Expr              // fields that opaque callees are assumed never to write (set once at construction)
 	StableSrc   []string
 	OwnPanicsNever bool             // the function's own run-time panics (index, nil, slice, division, explicit panic) are excluded; callees are not judged
@@ -47,6 +48,12 @@ type FuncContract struct {
 	Invoke      bool
 	IsLib       bool
 	Reads       []string // informational
+}
+
+type GhostSet struct {
+	Name string
+	E    Expr
+	Src  string
 }
 
 type SpecFunc struct {
@@ -99,7 +106,7 @@ func newContracts() *Contracts {
 	return &Contracts{Funcs: map[string]*FuncContract{}, SpecFuncs: map[string]*SpecFunc{}, Lemmas: map[string]*Lemma{}, Ghosts: map[string]*GhostVar{}, FuncFields: map[string]string{}, OpaqueTys: map[string]bool{}, NonConsensusMapLoops: map[string]string{}}
 }
 
-var directiveKW = []string{"func", "invoke", "spec", "pred", "lemma", "axiom", "ghost", "requires", "ensures", "modifies", "loop", "panics_never", "may_panic", "inline", "trusted", "uses", "noreturn", "pure", "fresh_result", "funcfield", "sink", "opaque", "maploop", "at", "opaque_calls", "panic_only_when", "stable", "own_panics_never"}
+var directiveKW = []string{"func", "invoke", "spec", "pred", "lemma", "axiom", "ghost", "requires", "ensures", "modifies", "loop", "panics_never", "may_panic", "inline", "trusted", "uses", "noreturn", "pure", "fresh_result", "funcfield", "sink", "opaque", "maploop", "at", "opaque_calls", "panic_only_when", "stable", "own_panics_never", "ghost_set"}
 
 type directive struct {
 	kw    string
@@ -416,6 +423,16 @@ func (c *Contracts) loadFile(path, pkgPath string, isLib bool) error {
 					curF.Stable = append(curF.Stable, e)
 					curF.StableSrc = append(curF.StableSrc, strings.TrimSpace(part))
 				}
+			case "ghost_set":
+				i := indexTopLevelEq(d.rest)
+				if i < 0 {
+					return fail(fmt.Errorf("expected 'ghost_set name = expr'"))
+				}
+				e, err := parseExpr(strings.TrimSpace(d.rest[i+1:]))
+				if err != nil {
+					return fail(err)
+				}
+				curF.GhostSets = append(curF.GhostSets, GhostSet{strings.TrimSpace(d.rest[:i]), e, d.rest})
 			case "own_panics_never":
 				curF.OwnPanicsNever = true
 			case "opaque_calls":
